@@ -27,6 +27,17 @@ def nshards():
     return max(1, min(MAX_PROCS, vlib.NPROC))
 
 
+def scenarios(rel):
+    """built-in scenarios of the harness built for this geometry: [(name, threads)]"""
+    rc, out = vlib.sh([os.path.join(rel, HARNESS_BIN), "--list"])
+    res = []
+    for ln in out.split("\n"):
+        m = re.match(r"(\S+) threads=(\d+) ", ln)
+        if m:
+            res.append((m.group(1), int(m.group(2))))
+    return res
+
+
 class Failure:
     def __init__(self, kind, tag, text, features=()):
         self.kind, self.tag, self.text, self.features = kind, tag, text, tuple(features)
